@@ -220,7 +220,7 @@ def run_shard(desc, seed, tier):
         from props.C04 import vla_grid_programs, write_site_programs
         progs = vla_grid_programs() + write_site_programs()
         for pi, (name, src) in enumerate(progs):
-            if pi % 2 != k or (tier == 'quick' and (pi // 2) % 3 != seed % 3):
+            if pi % 2 != k or (tier == 'quick' and (pi // 2) % 3 != seed % 3 and not name.startswith('early_reenter')):
                 continue
             for ws in ((2, 3) if tier == 'quick' else (2, 3, 4, 8)):
                 for n in ((16,) if name.startswith('early') else (12345,)) if tier == 'quick' else ((3, 16) if name.startswith('early') else (7, 12345)):
